@@ -26,7 +26,9 @@ MODEL_MODULES = ['HdVerif.Model.SegRead', 'HdVerif.Model.SegMeta', 'HdVerif.Mode
 NAMESPACE = 'HdVerif.C02'
 DRIVER = 'Drivers/C02.lean'
 RULE = ('segmentation objects built with the real constructor from (source kind, type, segment numbers, mask, '
-        'omit_empty_frames, tiling, in-memory/file/lazy); one case = one read request (entry point, ordered segment '
+        'omit_empty_frames, tiling, in-memory/file/lazy); every object gets a history of reads (pixel_array accessed at a random '
+        'step, refused reads kept, earlier requests repeated; object snapshots compared after every step); '
+        'one case = one read request (entry point, ordered segment '
         'subset, combine, relabel, skip_overlap_checks, rescale_fractional, dtype, requested planes incl. absent ones, '
         'assert_missing) or one metadata search; non-trivial = accepted read whose result is neither all zero nor all '
         'equal, or a search with at least one match and one non-match; distinct by (type, entry, number of segments, '
